@@ -1114,7 +1114,7 @@ class _SocketManager:
         if conn is not None:
             try:
                 conn.send_message(message)
-            except (ValueError, OSError) as exc:
+            except Exception as exc:  # ValueError, OSError, or any error raised while pickling the message
                 # TODO qmi#379 - It sometimes happens that a background service
                 #     logs 1000s of BrokenPipeError exceptions within 1 second.
                 #     To be investigated why this happens.
@@ -1142,6 +1142,18 @@ class _SocketManager:
                 _logger.debug("Failed to deliver error reply to %r", message.source_address)
             except Exception:
                 _logger.exception("Unexpected exception while delivering error reply to %r", message.source_address)
+
+        # If a reply could not be sent (e.g. its result can not be pickled), tell the waiting peer.
+        if ((error_msg is not None) and (conn is not None) and isinstance(message, QMI_ReplyMessage)
+                and not isinstance(message, QMI_ErrorReplyMessage)):
+            error_reply = QMI_ErrorReplyMessage(source_address=message.source_address,
+                                                destination_address=message.destination_address,
+                                                request_id=message.request_id,
+                                                error_msg=error_msg)
+            try:
+                conn.send_message(error_reply)
+            except Exception:
+                _logger.warning("Error while sending error reply to %s", message.destination_address.context_id)
 
     def get_peer_context_names(self) -> List[str]:
         """Return a list of peer context names.
